@@ -414,6 +414,9 @@ def run(chk: Check) -> None:
     from .c07 import rule_s4
 
     reuse(chk, rule_s4, "R8", "PyOpenSSL pump: every decrypted record is handed to the inner protocol at once and the pump keeps reading (= C07.S4): a request is answered on this backend exactly when it is on the other", ("S4",))
+    from .c13 import rule_e2
+
+    reuse(chk, rule_e2, "R9", "the library's client hands out the body as the bytes received after the header (bytes for binary types, decoded str for text), for exactly the 2x statuses (= C13.E2): what a handler returned is what a caller - including the reverse proxy - gets", ("E2",))
     reuse(chk, rule_e3, "R7", "the client's size cap is applied to the buffered body (len(self.buffer) after the header was split off), is finite, and exceeding it reports an error and closes (= C13.E3)", ("E3",))
     chk.trusted = ["CPython ast parser", "engine resolver (attribute annotations)", "asyncio transports deliver everything given to write() before close() completes", "OpenSSL.SSL.Connection.sendall loops until everything is written"]
     chk.assumptions = ["record/buffer boundary behaviour and back-pressure are not decided"]
